@@ -206,6 +206,86 @@ def capture_order_scenarios():
     return out
 
 
+def capture_across_switch_scenarios():
+    """a variable stays ONE variable for its scope and every closure over it across fiber switches: the scope that declared it is suspended
+    (it yields, or a function it called yields, or it calls another fiber) while closures over it exist; afterwards writes made directly
+    and writes made through a closure must both be seen by direct reads and by reads through every closure - in the suspended fiber, in
+    the fiber that resumed it, and after the scope has ended."""
+    out = []
+    homes = ["fiber-body", "fiber-block", "fiber-callee", "main-block", "main-fn"]
+    switches = ["yield", "yield-in-callee", "call-other-fiber", "yield-twice"]
+    for home, switch, first_write, escape in itertools.product(homes, switches, ("direct", "closure"), (False, True)):
+        if home.startswith("main") and switch != "call-other-fiber":
+            continue
+        b = Builder()
+        F = lambda: b.v("Fiber")
+        b.var("kept", lit(None))
+        b.var("log", vec())
+        b.fn("pause", ["tag"]); b.ret(inv(F(), "yield", b.v("tag"))); b.end()
+        b.fn("other_body", []); b.expr(inv(b.v("log"), "push", lit("other fiber ran"))); b.expr(inv(F(), "yield", lit("other yields"))); b.ret(lit("other done")); b.end()
+
+        def do_switch(tag):
+            if switch in ("yield", "yield-twice"):
+                b.expr(inv(b.v("log"), "push", tup(lit("resumed with"), inv(F(), "yield", lit(tag)))))
+                if switch == "yield-twice":
+                    b.expr(inv(b.v("log"), "push", tup(lit("resumed again with"), inv(F(), "yield", lit(tag + "'")))))
+            elif switch == "yield-in-callee":
+                b.expr(inv(b.v("log"), "push", tup(lit("callee resumed with"), call(b.v("pause"), lit(tag)))))
+            else:
+                b.var("of_" + tag, inv(F(), "new", b.v("other_body")))
+                b.expr(inv(b.v("log"), "push", inv(b.v("of_" + tag), "call")))
+                b.expr(inv(b.v("log"), "push", inv(b.v("of_" + tag), "call")))
+
+        def scope_body():
+            b.var("below", lit("below"))
+            b.var("x", lit(10))
+            b.var("get", b.lam([], lambda: b.v("x")))
+            b.var("set", b.lam(["v"], lambda: b.assign("x", b.v("v"))))
+            b.var("above", lit("above"))
+            if escape:
+                b.expr(b.assign("kept", b.v("get")))
+            do_switch("s1")
+            if first_write == "direct":
+                b.expr(b.assign("x", bin_("+", b.v("x"), lit(1))))
+                b.print(tup(lit("after direct write"), b.v("x"), call(b.v("get"))))
+                b.expr(call(b.v("set"), lit(50)))
+                b.print(tup(lit("after closure write"), b.v("x"), call(b.v("get"))))
+            else:
+                b.expr(call(b.v("set"), lit(50)))
+                b.print(tup(lit("after closure write"), b.v("x"), call(b.v("get"))))
+                b.expr(b.assign("x", bin_("+", b.v("x"), lit(1))))
+                b.print(tup(lit("after direct write"), b.v("x"), call(b.v("get"))))
+            do_switch("s2")
+            b.expr(b.assign("x", bin_("*", b.v("x"), lit(2))))
+            b.print(tup(b.v("below"), b.v("x"), call(b.v("get")), b.v("above")))
+
+        if home == "fiber-body":
+            b.fn("body", []); scope_body(); b.ret(lit("body done")); b.end()
+        elif home == "fiber-block":
+            b.fn("body", []); b.var("outer", lit("outer")); b.block(); scope_body(); b.end(); b.print(b.v("outer")); b.ret(lit("body done")); b.end()
+        elif home == "fiber-callee":
+            b.fn("worker", []); scope_body(); b.ret(lit("worker done")); b.end()
+            b.fn("body", []); b.var("mine", lit("body local")); b.print(call(b.v("worker"))); b.print(b.v("mine")); b.ret(lit("body done")); b.end()
+        if home.startswith("fiber"):
+            b.var("fb", inv(F(), "new", b.v("body")))
+            b.var("round", lit(0))
+            b.while_(un("!", inv(b.v("fb"), "has_finished")))
+            b.expr(b.assign("round", bin_("+", b.v("round"), lit(1))))
+            b.print(tup(lit("main got"), inv(b.v("fb"), "call", b.v("round"))))
+            b.if_(bin_("!=", b.v("kept"), lit(None))); b.print(tup(lit("main reads"), call(b.v("kept")))); b.end()
+            b.if_(bin_(">", b.v("round"), lit(8))); b.break_(); b.end()
+            b.end()
+        elif home == "main-block":
+            b.block(); scope_body(); b.end()
+        else:
+            b.fn("mainfn", []); scope_body(); b.ret(lit("mainfn done")); b.end()
+            b.print(call(b.v("mainfn")))
+        b.if_(bin_("!=", b.v("kept"), lit(None))); b.print(tup(lit("afterwards"), call(b.v("kept")))); b.end()
+        b.print(b.v("log"))
+        out.append(("capsw:%s:%s:%s:%d" % (home, switch, first_write, int(escape)), b.toks))
+    return out
+
+
 def closure_retention_scenarios():
     """what a long-lived closure keeps alive (C16 / C01): three variables of one scope hold heap values and are captured in every
     order; any subset of the closures outlives the scope (stored in globals), the others are locals of the scope.  When the scope
